@@ -391,6 +391,86 @@ func checkBuf(c BufCase) error {
 	return nil
 }
 
+// BufsCase: a history over several buffers. Op: "new" | "write" (buffer I, text S) | "read" (buffer I).
+type BufsCase struct {
+	Ops []BufOp `json:"ops"`
+}
+
+type BufOp struct {
+	Op string `json:"op"`
+	I  int    `json:"i,omitempty"`
+	S  string `json:"s,omitempty"`
+}
+
+// checkBufs: every buffer accumulates exactly its own writes, whatever is done to the others and whenever
+// buffers are created or read.
+func checkBufs(c BufsCase) error {
+	var bs []buf.Buffer
+	var model []string
+	for k, op := range c.Ops {
+		switch op.Op {
+		case "new":
+			bs = append(bs, buf.New())
+			model = append(model, "")
+		case "write":
+			if len(bs) == 0 {
+				continue
+			}
+			i := op.I % len(bs)
+			buf.Write(bs[i], op.S)
+			model[i] += op.S
+		case "read":
+			if len(bs) == 0 {
+				continue
+			}
+			i := op.I % len(bs)
+			if g := buf.String(bs[i]); g != model[i] {
+				return fmt.Errorf("step %d: String of buffer %d = %q, its writes in order are %q", k, i, g, model[i])
+			}
+		}
+	}
+	for i := range bs {
+		if g := buf.String(bs[i]); g != model[i] {
+			return fmt.Errorf("at the end: String of buffer %d = %q, its writes in order are %q", i, g, model[i])
+		}
+	}
+	return nil
+}
+
+func TestBufs(t *testing.T) {
+	e := vt.Get()
+	defer e.Flush()
+	rapid.Check(t, func(rt *rapid.T) {
+		c := BufsCase{Ops: []BufOp{{Op: "new"}}}
+		n := rapid.IntRange(1, 14).Draw(rt, "n")
+		news, readThenNew := 1, false
+		lastWasRead := false
+		for i := 0; i < n; i++ {
+			switch rapid.IntRange(0, 5).Draw(rt, "op") {
+			case 0:
+				c.Ops = append(c.Ops, BufOp{Op: "new"})
+				news++
+				if lastWasRead {
+					readThenNew = true
+				}
+				lastWasRead = false
+			case 1, 2:
+				c.Ops = append(c.Ops, BufOp{Op: "read", I: rapid.IntRange(0, 3).Draw(rt, "which")})
+				lastWasRead = true
+			default:
+				c.Ops = append(c.Ops, BufOp{Op: "write", I: rapid.IntRange(0, 3).Draw(rt, "which"), S: genPiece(rt, "w")})
+				lastWasRead = false
+			}
+		}
+		labels := []string{"bufs"}
+		if readThenNew {
+			labels = append(labels, "a buffer created right after another one was read")
+		}
+		e.Record("TestBufs", vt.HashJSON(c), news >= 2, labels, func() any { return c })
+		e.Check(rt, "bufs", c, func() error { return checkBufs(c) })
+	})
+}
+
 func TestBuf(t *testing.T) {
 	e := vt.Get()
 	defer e.Flush()
@@ -741,6 +821,7 @@ func TestReplay(t *testing.T) {
 		"dict":    vt.Handler(checkDict),
 		"strings": vt.Handler(checkStr),
 		"buf":     vt.Handler(checkBuf),
+		"bufs":    vt.Handler(checkBufs),
 		"frt":     vt.Handler(checkFrt),
 	})
 }
